@@ -109,7 +109,6 @@ func HarnessMaxSize() {
 	zz.Reach("done")
 }
 
-
 // HarnessMaxSizeSweep: page-granular growth (AllocSize 0) with the limit swept one page at a time, so
 // that every allocation of a commit – including the last one, for the freelist page – is the one that
 // hits the limit for some value. Every write either succeeds or fails with the size-limit error,
